@@ -5484,6 +5484,9 @@ pub fn initialize(env: &mut Env) {
                             );
                             a /= base;
                         }
+                        if ret.is_empty() {
+                            ret.push('0');
+                        }
                         if neg {
                             ret.push('-');
                         }
